@@ -136,6 +136,7 @@ pub fn guard<T>(f: impl FnOnce() -> T) -> Result<T, PanicInfo> {
     IN_CALL.store(true, Ordering::Relaxed);
     let r = catch_unwind(AssertUnwindSafe(f));
     IN_CALL.store(false, Ordering::Relaxed);
+    EXTRA_S.store(0, Ordering::Relaxed);
     HEARTBEAT.fetch_add(1, Ordering::Relaxed);
     match r {
         Ok(v) => Ok(v),
@@ -147,6 +148,16 @@ pub fn guard<T>(f: impl FnOnce() -> T) -> Result<T, PanicInfo> {
 
 /// watchdog: a call that makes no progress for `secs` seconds is a stall; the shard
 /// exits with status 3 and the driver re-runs it in trace mode to identify the input
+/// extra seconds the call in progress may take on top of the base allowance: one second per MiB of
+/// input (a hundred times slower than the code under test runs on an idle machine). A stall
+/// verdict is a wall-clock verdict; it must not fire because an input is large or the machine busy.
+static EXTRA_S: AtomicU64 = AtomicU64::new(0);
+
+/// announce the size of the input of the next guarded call (reset when the call returns)
+pub fn allow(len_bytes: usize) {
+    EXTRA_S.store((len_bytes >> 20) as u64, Ordering::Relaxed);
+}
+
 pub fn start_watchdog(secs: u64) {
     std::thread::spawn(move || {
         let mut last = HEARTBEAT.load(Ordering::Relaxed);
@@ -156,8 +167,9 @@ pub fn start_watchdog(secs: u64) {
             let now = HEARTBEAT.load(Ordering::Relaxed);
             if now == last && IN_CALL.load(Ordering::Relaxed) {
                 still += 1;
-                if still >= secs {
-                    eprintln!("AISMON-STALL no progress for {} s inside a call", secs);
+                let limit = secs + EXTRA_S.load(Ordering::Relaxed);
+                if still >= limit {
+                    eprintln!("AISMON-STALL no progress for {} s inside a call", limit);
                     std::process::exit(3);
                 }
             } else {
@@ -273,6 +285,7 @@ impl Parser {
         trace("L", line, decode as u64);
         let p = &mut self.p;
         let off = next_offset();
+        allow(line.len());
         match guard(|| {
             at_offset(line, off, |l| {
                 let r = p.parse(l, decode);
@@ -296,6 +309,7 @@ impl Parser {
     ) -> Result<Result<ais::AisFragments, ais::errors::Error>, PanicInfo> {
         trace("L", line, decode as u64);
         let p = &mut self.p;
+        allow(line.len());
         let r = guard(|| p.parse(line, decode));
         if r.is_err() {
             self.p = ais::AisParser::new();
@@ -311,6 +325,7 @@ pub fn call_unarmor(data: &[u8], fill: usize) -> Result<Option<Vec<u8>>, PanicIn
 }
 
 pub fn call_unarmor_at(data: &[u8], fill: usize, off: usize) -> Result<Option<Vec<u8>>, PanicInfo> {
+    allow(data.len());
     guard(|| at_offset(data, off, |d| ais::messages::unarmor(d, fill).ok().map(|v| v[..].to_vec())))
 }
 
@@ -323,6 +338,7 @@ pub enum MsgCall {
 pub fn call_message(buf: &[u8]) -> MsgCall {
     trace("M", buf, 0);
     let off = next_offset();
+    allow(buf.len());
     match guard(|| at_offset(buf, off, |b| ais::messages::parse(b).ok().map(|m| (observe::message(&m), format!("{:?}", m))))) {
         Ok(Some((o, d))) => MsgCall::Ok(o, d),
         Ok(None) => MsgCall::Err,
@@ -339,6 +355,7 @@ pub fn call_message_direct(buf: &[u8]) -> Option<MsgCall> {
         return None;
     }
     let t = buf[0] >> 2;
+    allow(buf.len());
     macro_rules! via {
         ($variant:ident, $ty:path) => {
             guard(|| <$ty as AisMessageType>::parse(buf).ok().map(|m| {
